@@ -2,9 +2,9 @@
 
 import sys
 if sys.version_info < (3,3,):
-    from collections import Mapping
+    from collections import Mapping, MutableMapping
 else:
-    from collections.abc import Mapping
+    from collections.abc import Mapping, MutableMapping
 
 from ..sinter import FunctionBuilder
 from .core import Middleware
@@ -57,7 +57,8 @@ class ContextProcessor(Middleware):
 
     def _create_render(self):
         def process_render_context(next, context, **kwargs):
-            if not isinstance(context, Mapping):
+            if not isinstance(context, MutableMapping):
+                # nothing can be added to a read-only mapping either
                 return next()
             desired_args = self.required + list(self.defaults.keys())
             for arg in desired_args:
